@@ -11,7 +11,7 @@ bytes it is), the string terminated inside `slen` cells or not at all — the ca
 and leaves every cell outside `src[0..slen)` bit-identical.  In particular the cell `src[slen]` that the loop
 `while (*src && slen)` READS when no NUL comes first (C02's business) is never written.
 
-Proved once for the shared text `wcase_s f`, for EVERY cell mapping `f` (the theorem does not look at the tables of
+Proved once for the shared text `wcase_s rb f`, for EVERY cell mapping `f` (the theorem does not look at the tables of
 `_towupper` or at what libc's `towlower` does), through the `WW` judgement: every store address lies in
 `[src, src+slen)` whatever values the loads return.
 -/
@@ -19,12 +19,14 @@ namespace SafeC.Props.C01
 open SafeC Gen
 
 /-- the loop stores only to the cells its counter covers, whatever it reads -/
-theorem WW_wcaseLoop (f : Nat → Nat) (slen src : Nat) :
-    WW src (src + slen) (wcaseLoop f slen src) (fun _ => True) := by
+theorem WW_wcaseLoop (rb : Bool) (f : Nat → Nat) (slen src : Nat) :
+    WW src (src + slen) (wcaseLoop rb f slen src) (fun _ => True) := by
   induction slen generalizing src with
   | zero =>
     unfold wcaseLoop
-    exact WW.bind (WW.loadP src) (fun _ _ => WW.pure _ trivial)
+    split
+    · exact WW.bind (WW.loadP src) (fun _ _ => WW.pure _ trivial)
+    · exact WW.pure _ trivial
   | succ k ih =>
     unfold wcaseLoop
     refine WW.bind (WW.loadP src) (fun c _ => ?_)
@@ -35,9 +37,9 @@ theorem WW_wcaseLoop (f : Nat → Nat) (slen src : Nat) :
       exact (ih (src+1)).mono (by omega) (by omega)
 
 /-- the shared text, for every mapping `f`: within any window that contains `src[0..slen)` -/
-theorem WW_wcase_s (f : Nat → Nat) (src slen : Nat) (b : Bos) (lo hi : Nat)
+theorem WW_wcase_s (rb : Bool) (f : Nat → Nat) (src slen : Nat) (b : Bos) (lo hi : Nat)
     (h : src ≠ 0 → lo ≤ src ∧ src + slen ≤ hi) :
-    WW lo hi (wcase_s f src slen b) (fun _ => True) := by
+    WW lo hi (wcase_s rb f src slen b) (fun _ => True) := by
   unfold wcase_s
   split
   · exact WW.pure _ trivial
@@ -45,8 +47,8 @@ theorem WW_wcase_s (f : Nat → Nat) (src slen : Nat) (b : Bos) (lo hi : Nat)
     · exact WW.failS _
     · rename_i hd
       obtain ⟨hlo, hhi⟩ := h hd
-      have body : WW lo hi (do wcaseLoop f slen src; pure EOK : Prog Nat) (fun _ => True) :=
-        WW.bind ((WW_wcaseLoop f slen src).mono hlo hhi) (fun _ _ => WW.pure _ trivial)
+      have body : WW lo hi (do wcaseLoop rb f slen src; pure EOK : Prog Nat) (fun _ => True) :=
+        WW.bind ((WW_wcaseLoop rb f slen src).mono hlo hhi) (fun _ _ => WW.pure _ trivial)
       split
       · exact WW.failS _
       · dsimp only
@@ -57,32 +59,32 @@ theorem WW_wcase_s (f : Nat → Nat) (src slen : Nat) (b : Bos) (lo hi : Nat)
           · exact body
 
 theorem WW_wcslwr_s (cfg : Cfg) (src slen : Nat) (b : Bos) (lo hi : Nat) (h : src ≠ 0 → lo ≤ src ∧ src + slen ≤ hi) :
-    WW lo hi (wcslwr_s cfg src slen b) (fun _ => True) := WW_wcase_s _ src slen b lo hi h
+    WW lo hi (wcslwr_s cfg src slen b) (fun _ => True) := WW_wcase_s _ _ src slen b lo hi h
 
 theorem WW_wcsupr_s (cfg : Cfg) (src slen : Nat) (b : Bos) (lo hi : Nat) (h : src ≠ 0 → lo ≤ src ∧ src + slen ≤ hi) :
-    WW lo hi (wcsupr_s cfg src slen b) (fun _ => True) := WW_wcase_s _ src slen b lo hi h
+    WW lo hi (wcsupr_s cfg src slen b) (fun _ => True) := WW_wcase_s _ _ src slen b lo hi h
 
 /-- the shared text with ANY cell mapping: all arguments, any object-size knowledge, any contents -/
-theorem wcase_s_C01 (f : Nat → Nat) (src slen : Nat) (b : Bos) (st : St) (hs : Setting st)
+theorem wcase_s_C01 (rb : Bool) (f : Nat → Nat) (src slen : Nat) (b : Bos) (st : St) (hs : Setting st)
     (hrw : src ≠ 0 → RW st src slen) :
-    ∃ code st', exec (wcase_s f src slen b) st = .ok (code, st') ∧ Holds st st' :=
+    ∃ code st', exec (wcase_s rb f src slen b) st = .ok (code, st') ∧ Holds st st' :=
   holds_of_WW src slen st hs
     (fun hd a h1 h2 => by have := hrw hd (a - src) (by omega); have e : src + (a - src) = a := by omega
                           rw [e] at this; exact this.2.1)
-    (fun _ => WW_wcase_s f src slen b _ _ (fun _ => ⟨Nat.le_refl _, Nat.le_refl _⟩))
-    (fun h0 => WW_wcase_s f src slen b _ _ (fun hd => absurd h0 hd))
+    (fun _ => WW_wcase_s rb f src slen b _ _ (fun _ => ⟨Nat.le_refl _, Nat.le_refl _⟩))
+    (fun h0 => WW_wcase_s rb f src slen b _ _ (fun hd => absurd h0 hd))
 
 /-- **wcslwr_s** -/
 theorem wcslwr_s_C01 (cfg : Cfg) (src slen : Nat) (b : Bos) (st : St) (hs : Setting st)
     (hrw : src ≠ 0 → RW st src slen) :
     ∃ code st', exec (wcslwr_s cfg src slen b) st = .ok (code, st') ∧ Holds st st' :=
-  wcase_s_C01 _ src slen b st hs hrw
+  wcase_s_C01 _ _ src slen b st hs hrw
 
 /-- **wcsupr_s** -/
 theorem wcsupr_s_C01 (cfg : Cfg) (src slen : Nat) (b : Bos) (st : St) (hs : Setting st)
     (hrw : src ≠ 0 → RW st src slen) :
     ∃ code st', exec (wcsupr_s cfg src slen b) st = .ok (code, st') ∧ Holds st st' :=
-  wcase_s_C01 _ src slen b st hs hrw
+  wcase_s_C01 _ _ src slen b st hs hrw
 
 /-- the hypotheses are satisfiable by an unterminated array: five cells 'G', only they writable -/
 example : ∃ st : St, Setting st ∧ ((100 : Nat) ≠ 0 → RW st 100 5) :=
